@@ -25,16 +25,24 @@ pub struct RigCfg {
 	pub max_subs: u32,
 	pub buf_cap: u32,
 	pub max_conns: u32,
+	/// WebSocket ping (interval ms, inactive limit ms); None = pings disabled
+	pub ping_ms: Option<(u64, u64)>,
 }
 impl Default for RigCfg {
 	fn default() -> Self {
-		RigCfg { max_req: 10 * 1024 * 1024, max_resp: 10 * 1024 * 1024, batch: BatchRequestConfig::Unlimited, max_subs: 1024, buf_cap: 1024, max_conns: 100 }
+		RigCfg { max_req: 10 * 1024 * 1024, max_resp: 10 * 1024 * 1024, batch: BatchRequestConfig::Unlimited, max_subs: 1024, buf_cap: 1024, max_conns: 100, ping_ms: None }
 	}
 }
 impl RigCfg {
 	pub fn server_config(&self) -> ServerConfig {
-		ServerConfig::builder()
-			.max_request_body_size(self.max_req)
+		let b = ServerConfig::builder();
+		let b = match self.ping_ms {
+			Some((i, l)) => b.enable_ws_ping(
+				jsonrpsee_server::PingConfig::new().ping_interval(Duration::from_millis(i)).inactive_limit(Duration::from_millis(l)).max_failures(1),
+			),
+			None => b,
+		};
+		b.max_request_body_size(self.max_req)
 			.max_response_body_size(self.max_resp)
 			.set_batch_request_config(self.batch)
 			.max_subscriptions_per_connection(self.max_subs)
